@@ -493,9 +493,11 @@ class AppClock(Clock, metaclass=MetaAppClock):
             if not hasattr(item, '__awake__'):
                 item = fn.Function(item)
             item._clock = cls
-            if delta == float('inf'):
+            seconds = _libsc3.main.current_tt._seconds
+            seconds += delta
+            if seconds == float('inf'):
                 return
-            ClockTask(delta, cls, item, _libsc3.main._clock_scheduler)
+            ClockTask(seconds, cls, item, _libsc3.main._clock_scheduler)
         else:
             with cls._sched_lock:
                 cls._scheduler.sched(delta, item)
